@@ -192,6 +192,8 @@ type Exec struct {
 	instDone   map[string]bool
 	recDepth   map[string]int
 	noMergeTop bool
+	noMergeAll bool              // keep every path through inlined helpers apart (many small conjunctive VCs)
+	onlyProp   string            // generate only the obligations tagged with this property
 	rename     map[string]string // parameter renaming for the second copy of a self-composed run
 	collect    *[]*State
 	instDepth  int // how deep contracts of applications inside instantiated contracts are unfolded
@@ -629,6 +631,12 @@ func (x *Exec) frontier(st *State) Term {
 // wfA: well-formedness plus the allocator invariant for a value read or
 // received in state st.
 func (x *Exec) wfA(st *State, v Term, t types.Type) Term {
+	if strings.HasPrefix(v.S, "gval!") || strings.HasPrefix(v.S, "|gval!") {
+		// package-level values are immutable after initialisation: whatever they
+		// point to existed when the function under contract was entered
+		x.declare("brk!", SInt)
+		return And(x.wf(v, t), x.addrBound(v, t, Term{"brk!", SInt}))
+	}
 	return And(x.wf(v, t), x.addrBound(v, t, x.frontier(st)))
 }
 
@@ -838,6 +846,9 @@ func (x *Exec) addVC(st *State, kind, name, prop string, pos token.Pos, goal Ter
 	}
 	if kind == "safety" && prop == "" {
 		prop = "C17" // "no input can crash ...": a failed safety obligation is a C17 violation
+	}
+	if x.onlyProp != "" && prop != x.onlyProp {
+		return
 	}
 	full := x.fname + "/" + name
 	if x.relTag != "" {
@@ -1311,6 +1322,9 @@ func (x *Exec) doReturn(st *State, in *ssa.Return) {
 		if x.c.TrustedPost {
 			x.trusted["postconditions of "+x.fname+" are assumed (body checked for safety only): "+x.c.TrustWhy] = true
 			break
+		}
+		if x.onlyProp != "" && c.Prop != x.onlyProp {
+			continue
 		}
 		t := x.trBool(env, c.E)
 		lbl := c.Label
